@@ -430,14 +430,23 @@ func (q *queryChecker) Check(qu Query) {
 			q.cls["hit:response"]++
 		}
 	case "fees":
-		want := s.EarnedOf(qu.Addr)
+		// the stored records of exactly this provider, coin by coin
+		want := sdk.NewCoins()
+		for _, e := range s.Earned {
+			if e.Provider == qu.Addr && e.Amount > 0 {
+				want = want.Add(sdk.NewCoin(e.Denom, sdk.NewInt(e.Amount)))
+			}
+		}
 		res, err := k.EarnedFees(ctx, &types.QueryEarnedFeesRequest{Provider: addr(qu.Addr)})
 		if err != nil {
-			if want != 0 {
-				q.fail(qu.Kind, "gRPC earned fees of %s: %v, stored %d", qu.Addr, err, want)
+			if !want.IsZero() {
+				q.fail(qu.Kind, "gRPC earned fees of %s: %v, stored %s", qu.Addr, err, want)
 			}
-		} else if got := stakeOf(res.Fees); got != want || len(res.Fees) > 1 {
-			q.fail(qu.Kind, "gRPC earned fees of %s: %s, stored %d", qu.Addr, res.Fees, want)
+		} else if !sameCoins(res.Fees, want) {
+			q.fail(qu.Kind, "gRPC earned fees of %s: %s, stored %s", qu.Addr, res.Fees, want)
+		}
+		if len(want) > 1 {
+			q.cls["hit:fees_in_two_coins"]++
 		}
 		if !q.expressible(addr20(addr(qu.Addr))) {
 			return
@@ -448,13 +457,13 @@ func (q *queryChecker) Check(qu Query) {
 			lerr = q.legDecode(lbz, &lg)
 		}
 		if lerr != nil {
-			if want != 0 {
-				q.fail(qu.Kind, "legacy earned fees of %s: %v, stored %d", qu.Addr, lerr, want)
+			if !want.IsZero() {
+				q.fail(qu.Kind, "legacy earned fees of %s: %v, stored %s", qu.Addr, lerr, want)
 			}
-		} else if stakeOf(lg) != want {
-			q.fail(qu.Kind, "legacy earned fees of %s: %s, stored %d", qu.Addr, lg, want)
+		} else if !sameCoins(lg, want) {
+			q.fail(qu.Kind, "legacy earned fees of %s: %s, stored %s", qu.Addr, lg, want)
 		}
-		if want > 0 {
+		if !want.IsZero() {
 			q.cls["hit:fees"]++
 		}
 	case "schema":
@@ -572,4 +581,29 @@ func GenQueries(t *rapid.T, g *GenState) []Query {
 		}
 	}
 	return out
+}
+
+// sameCoins: the two lists name the same positive amounts per denomination, each denomination once
+func sameCoins(got, want sdk.Coins) bool {
+	m := map[string]string{}
+	for _, c := range got {
+		if _, dup := m[c.Denom]; dup {
+			return false
+		}
+		if c.Amount.IsPositive() {
+			m[c.Denom] = c.Amount.String()
+		} else if c.Amount.IsNegative() {
+			return false
+		}
+	}
+	n := 0
+	for _, c := range want {
+		if c.Amount.IsPositive() {
+			n++
+			if m[c.Denom] != c.Amount.String() {
+				return false
+			}
+		}
+	}
+	return n == len(m)
 }
